@@ -41,6 +41,13 @@ def main():
             r = sh(["git", "-C", "/repo", "worktree", "add", "--detach", repo])
             assert r.returncode == 0, r.stderr
             r = sh(["git", "-C", repo, "apply", patch])
+            if r.returncode != 0:
+                # stored against the pinned commit and in conflict with the round-5 fix commits (S13, S19, S31, R01-R03):
+                # use a worktree of the pinned commit instead (the reference models then also report the six repaired defects)
+                sh(["git", "-C", "/repo", "worktree", "remove", "--force", repo])
+                r = sh(["git", "-C", "/repo", "worktree", "add", "--detach", repo, "011963e"])
+                assert r.returncode == 0, r.stderr
+                r = sh(["git", "-C", repo, "apply", patch])
             assert r.returncode == 0, r.stderr
         env = dict(os.environ, VERIF_SEED=vseed)
         for prop in props:
